@@ -119,7 +119,7 @@ def matched_ids(case, funcs):
     if funcs is None:
         return []
     pt = funcs_ptype(funcs)
-    ids = [i + 1 for i, n in enumerate(case["names"]) if any(entry_matches(e, n, pt) for e in funcs)]
+    ids = [c06.fid(case, i) for i, n in enumerate(case["names"]) if any(entry_matches(e, n, pt) for e in funcs)]
     return ids or [77777]
 
 
@@ -181,11 +181,11 @@ def run_script_case(ctx, objdir, case, variants):
     """variants: list of (lang, funcs or None, sel or None).  returns list of (variant, callbacks, replay_lines)"""
     d = os.path.join(ctx.scratch, "data")
     c06.write_dir(case, d)
-    name_map = {n: i + 1 for i, n in enumerate(case["names"])}
+    name_map = c06.name_ids(case)
     tid_map = {t["tid"]: i for i, t in enumerate(case["tasks"])}
     syms = c06.sym_table(case)
-    addr_map = {c06.BASE + s[0]: i + 1 for i, s in enumerate(syms)}
-    addr_map.update({c06.BASE2 + s[0]: i + 1 for i, s in enumerate(syms)})
+    addr_map = {c06.BASE + s[0]: c06.fid(case, i) for i, s in enumerate(syms)}
+    addr_map.update({c06.BASE2 + s[0]: c06.fid(case, i) for i, s in enumerate(syms)})
     res = []
     replay_cache = {}
     for lang, funcs, sel in variants:
@@ -282,10 +282,10 @@ def run_opts_case(ctx, objdir, case, variants):
     """variants: list of (lang, opts, funcs, sel); returns (variant, callbacks, replay lines with the same options)"""
     d = os.path.join(ctx.scratch, "data")
     c06.write_dir(case, d)
-    name_map = {n: i + 1 for i, n in enumerate(case["names"])}
+    name_map = c06.name_ids(case)
     tid_map = {t["tid"]: i for i, t in enumerate(case["tasks"])}
-    addr_map = {c06.BASE + sy[0]: i + 1 for i, sy in enumerate(c06.sym_table(case))}
-    addr_map.update({c06.BASE2 + sy[0]: i + 1 for i, sy in enumerate(c06.sym_table(case))})
+    addr_map = {c06.BASE + sy[0]: c06.fid(case, i) for i, sy in enumerate(c06.sym_table(case))}
+    addr_map.update({c06.BASE2 + sy[0]: c06.fid(case, i) for i, sy in enumerate(c06.sym_table(case))})
     res = []
     for lang, o, funcs, sel in variants:
         script = os.path.join(ctx.scratch, "logo.%s" % ("py" if lang == "py" else "lua"))
@@ -317,7 +317,7 @@ def coq_fopts(o, names):
 def evaluate_opts(ctx, items, name):
     defs = []
     for ci, (case, obs) in enumerate(items):
-        names = {n: i + 1 for i, n in enumerate(case["names"])}
+        names = c06.name_ids(case)
         vs = []
         for (lang, o, funcs, sel), cbs, lines in obs:
             fl = matched_ids(case, funcs)
@@ -327,7 +327,7 @@ def evaluate_opts(ctx, items, name):
                 coq.coq_bool(o["t"] is None and not o.get("extra")),
                 "; ".join(coq_cb(c) for c in cbs), "; ".join(c06.coq_line(l) for l in lines)))
         defs.append("Definition c%d : ocase := ([%s], [%s], [%s])." % (
-            ci, "; ".join(str(k + 1) for k in case["forks"]), ";\n ".join(c06.coq_task(t) for t in case["tasks"]),
+            ci, "; ".join(str(c06.fid(case, k)) for k in case["forks"]), ";\n ".join(c06.coq_task(t, case) for t in case["tasks"]),
             ";\n ".join(vs)))
     defs.append("Definition cases : list ocase := [%s]." % "; ".join("c%d" % i for i in range(len(items))))
     res = coq.run_cases(ctx, name, PRE + "Require Import UV.C18.Filter.\n", "\n".join(defs), [
@@ -375,7 +375,7 @@ def leak_shape_case():
 def evaluate(ctx, items, name):
     defs = []
     for ci, (case, obs) in enumerate(items):
-        names = {n: i + 1 for i, n in enumerate(case["names"])}
+        names = c06.name_ids(case)
         vs = []
         for (lang, funcs, sel), cbs, lines in obs:
             fl = matched_ids(case, funcs)
@@ -384,7 +384,7 @@ def evaluate(ctx, items, name):
                 "None" if sel is None else "(Some [%s])" % "; ".join("%d%%nat" % i for i in sel),
                 "; ".join(coq_cb(c) for c in cbs), "; ".join(c06.coq_line(l) for l in lines)))
         defs.append("Definition c%d : scase := ([%s], [%s], [%s])." % (
-            ci, "; ".join(str(k + 1) for k in case["forks"]), ";\n ".join(c06.coq_task(t) for t in case["tasks"]),
+            ci, "; ".join(str(c06.fid(case, k)) for k in case["forks"]), ";\n ".join(c06.coq_task(t, case) for t in case["tasks"]),
             ";\n ".join(vs)))
     defs.append("Definition cases : list scase := [%s]." % "; ".join("c%d" % i for i in range(len(items))))
     res = coq.run_cases(ctx, name, PRE, "\n".join(defs), [
@@ -574,6 +574,105 @@ def record_time(ctx, objdir):
                                         "replay": {str(k): v for k, v in want.items()}}, True)
 
 
+# ------------------------------------------------------------------ end to end: a real program with longjmp and exec
+JMP_PROG = r'''
+#include <setjmp.h>
+#include <stdio.h>
+#include <stdlib.h>
+#include <string.h>
+#include <unistd.h>
+static jmp_buf env;
+static volatile int sink;
+__attribute__((noinline)) void leaf(int n) { sink += n; }
+__attribute__((noinline)) void thrower(int n) { leaf(n); if (n > 0) longjmp(env, n); }
+__attribute__((noinline)) void middle(int n) { leaf(n); thrower(n); leaf(-n); }
+__attribute__((noinline)) void outer(int n) { middle(n); leaf(-n); }
+__attribute__((noinline)) void after_exec(void) { leaf(7); }
+__attribute__((noinline)) void do_exec(char *self) { leaf(3); execl(self, self, "child", NULL); abort(); }
+int main(int argc, char *argv[])
+{
+	if (argc > 1 && !strcmp(argv[1], "child")) { after_exec(); return 0; }
+	if (setjmp(env) == 0)
+		outer(2);
+	leaf(1);
+	if (argc > 1 && !strcmp(argv[1], "exec"))
+		do_exec(argv[0]);
+	return 0;
+}
+'''
+
+
+def e2e_jump(ctx, objdir):
+    """a really recorded program: longjmp() from three frames below its setjmp(), then execl() of itself.  The callbacks of
+    `uftrace script -S log.py` on the recording are judged by ok_script against `uftrace replay --no-merge` of the same data
+    (kind, tid, depth, timestamp, duration, name of every callback, begin/end once)"""
+    root = os.path.join(ctx.scratch, "jmp")
+    os.makedirs(root, exist_ok=True)
+    src = os.path.join(root, "jmp.c")
+    open(src, "w").write(JMP_PROG)
+    exe = os.path.join(root, "jmp")
+    sh(["gcc", "-pg", "-O0", "-o", exe, src], check=True)
+    uft = os.path.join(objdir, "uftrace")
+    script = os.path.join(root, "log.py")
+    write_script(script, "py", None)
+    terms, metas = [], []
+    for mode, funcs in (("child", None), ("", None), ("exec", None), ("exec", Funcs(["leaf", "longjmp", "execl", "setjmp"]))):
+        d = os.path.join(root, "rec-%s.data" % (mode or "jump"))
+        shutil.rmtree(d, ignore_errors=True)
+        rc, out, err = sh(["timeout", "60", uft, "record", "--no-pager", "--no-event", "--libmcount-path=" + objdir, "-d", d, exe]
+                          + ([mode] if mode else []), timeout=90)
+        if rc != 0:
+            ctx.broken("e2e: recording the longjmp/exec program failed (rc=%d): %s" % (rc, (out + err)[-300:]))
+            continue
+        write_script(script, "py", funcs)
+        rc1, sout, serr = datadir.uftrace(objdir, "script", d, ["-S", script], timeout=60)
+        rc2, rout, rerr = datadir.uftrace(objdir, "replay", d, ["--no-merge", "-f", "duration,tid,time"], timeout=60)
+        if rc1 != 0 or rc2 != 0:
+            ctx.violation("e2e: uftrace script / replay failed on a recording with longjmp/exec (rc=%d/%d)" % (rc1, rc2),
+                          {"e2e_jump": mode, "err": (serr + rerr)[-300:]}, True)
+            continue
+        names, tids = {}, {}
+        nid = lambda n: names.setdefault(n, len(names) + 1)
+        tix = lambda t: tids.setdefault(t, len(tids))
+        lines = []
+        for ln in rout.split("\n"):
+            m = re.fullmatch(r" (.{10}) \[ *(\d+)\] +(\d+)\.(\d{9}) \| ( *)(.*)", ln)
+            if not m:
+                continue
+            dur = c06.parse_time_unit(m.group(1)) or 0
+            tm = int(m.group(3)) * 10**9 + int(m.group(4))
+            sp, rest = len(m.group(5)), m.group(6)
+            mo = re.fullmatch(r"(\S+)\(\) \{", rest)
+            mc = re.fullmatch(r"\} /\* (\S+) \*/", rest)
+            if mo:
+                lines.append(("O", tix(int(m.group(2))), sp // 2, nid(mo.group(1)), 0, 0, tm, 0, 0))
+            elif mc:
+                lines.append(("C", tix(int(m.group(2))), sp // 2, nid(mc.group(1)), dur, 0, tm, 0, 0))
+            elif rest.strip():
+                lines.append(c06.BAD)
+        cbs = parse_callbacks(sout, tix, nid, lambda a: 0)
+        # the address is not compared here (a PLT address has no line of its own in replay): use the name's id
+        cbs = [c if c[0] not in ("E", "X") else (c[:4] + (c[5],) + c[5:] if c[0] == "E" else c[:5] + (c[6],) + c[6:]) for c in cbs]
+        fl = [] if funcs is None else [names[f] for f in funcs if f in names] or [77777]
+        terms.append("([%s], [%s], [%s])" % ("; ".join(map(str, fl)), "; ".join(coq_cb(c) for c in cbs),
+                                             "; ".join(c06.coq_line(l) for l in lines)))
+        metas.append({"e2e_jump": mode or "longjmp", "funcs": funcs, "callbacks": len(cbs), "replay_lines": len(lines)})
+        has = {n for n in names}
+        ctx.case(key=("e2e-jump", mode, repr(funcs)), tags=["e2e:real-program", "e2e:" + (mode or "longjmp")]
+                 + (["e2e:longjmp-seen"] if "longjmp" in has else []) + (["e2e:exec-seen"] if "execl" in has else []),
+                 size=len(cbs))
+    if not terms:
+        return
+    defs = "Definition runs : list (list N * list callback * list line) := [%s]." % ";\n".join(terms)
+    res = coq.run_cases(ctx, "e2e_jump", PRE, defs,
+                        [("bad", "bad_indices (fun x => ok_script (fst (fst x)) (snd (fst x)) (snd x)) runs 0")])
+    if res is None:
+        return
+    for i in coq.parse_nat_list(res["bad"])[:3]:
+        ctx.violation("C18 violated on a recorded program with longjmp/exec: the callbacks of `uftrace script` differ from what "
+                      "`uftrace replay` shows for the same recording (kind, tid, depth, timestamp, duration, name)", metas[i], True)
+
+
 # ------------------------------------------------------------------ entry points
 def common_meta(ctx):
     ctx.rule = ("replay time: a case = one generated task set of C06 x (script language, UFTRACE_FUNCS list or none, --tid "
@@ -662,6 +761,7 @@ def run(ctx):
         part = oitems[s:s + chunk]
         verdict_opts(ctx, part, evaluate_opts(ctx, part, "ocases%d" % (s // chunk)))
     record_time(ctx, objdir)
+    e2e_jump(ctx, objdir)
 
 
 def replay(ctx, obj):
@@ -671,6 +771,8 @@ def replay(ctx, obj):
     if not case:
         if obj.get("record_time"):
             record_time(ctx, objdir)
+        elif obj.get("e2e_jump") is not None:
+            e2e_jump(ctx, objdir)
         else:
             ctx.log("replay file has no case; nothing to re-execute")
         return
